@@ -155,7 +155,56 @@ func (fm *family) genFrame(r *rand.Rand, max int) cu.Frame {
 			batchLen = fm.aggHdr + 2 + n
 		}
 	}
+	if !fm.validFrame(f) {
+		panic("codech26x: generator left the ValidFrame predicate")
+	}
 	return f
+}
+
+// invalidate applies one mutation that (usually) takes a frame out of ValidFrame; used for the
+// correspondence of the validity predicate itself.
+func (fm *family) invalidate(r *rand.Rand, f cu.Frame) cu.Frame {
+	g := make(cu.Frame, len(f))
+	for i := range f {
+		g[i] = append([]byte(nil), f[i]...)
+	}
+	i := r.IntN(len(g))
+	switch r.IntN(8) {
+	case 0: // a start code somewhere
+		pos := r.IntN(len(g[i]) + 1)
+		sc := []byte{0, 0, 1}
+		if r.IntN(2) == 0 {
+			sc = []byte{0, 0, 0, 1}
+		}
+		g[i] = append(append(append([]byte(nil), g[i][:pos]...), sc...), g[i][pos:]...)
+	case 1: // aggregation / fragmentation type
+		if fm == famH264 {
+			g[i][0] = g[i][0]&0xE0 | byte(24+r.IntN(6))
+		} else {
+			g[i][0] = g[i][0]&0x81 | byte(48+r.IntN(3))<<1
+		}
+	case 2: // forbidden_zero_bit
+		g[i][0] |= 0x80
+	case 3: // too short
+		g[i] = g[i][:r.IntN(fm.naluHdr)]
+	case 4: // too many NALUs
+		for len(g) <= fm.maxNALUs {
+			g = append(g, fm.genNALU(r, fm.naluHdr))
+		}
+	case 5: // no NALU at all
+		g = cu.Frame{}
+	case 6: // neighbouring type values (still valid or not, the predicate decides)
+		if fm == famH264 {
+			g[i][0] = byte(r.IntN(256))
+		} else {
+			g[i][0] = byte(r.IntN(256))
+		}
+	default: // a start code split over the header
+		if len(g[i]) >= 3 {
+			g[i][0], g[i][1], g[i][2] = 0, 0, 1
+		}
+	}
+	return g
 }
 
 func (fm *family) pickMax(r *rand.Rand) int {
